@@ -471,6 +471,8 @@ def run(rep, tier):
     c10.clause_escape_carry(f3, rep, ('::sse::',))
     c10.clause_escape_flag(f1, rep, ('::avx2::',))
     c10.clause_escape_flag(f3, rep, ('::sse::',))
+    c10.clause_container_carry(f1, rep, ('::avx2::',))
+    c10.clause_container_carry(f3, rep, ('::sse::',))
     c10.clause_escaped_bits(f1, rep, tier)
     c10.clause_escaped_bits(f3, rep, tier)
     rep.trust('clang 14 front end', 'Intel semantics of the SSE compare / movemask intrinsics', 'simd wrapper contracts (== and unsigned <= followed by to_bitmask)')
